@@ -35,14 +35,14 @@ HARNESS = ["invoices/c15_test.go"]
 D1_KEY = "replay:keysend-expiry-precheck"
 
 # (k1, k2, NC, Amts, MaxEvents): closure of the model for that pair of invoice kinds (MaxEvents = 0: all reachable
-# states; measured with 4 workers: quick set 0.12M-0.58M generated / 4k-15k distinct states, 9-40 s each; thorough adds
+# states; measured with 4 workers: quick set 0.12M-0.51M generated / 4k-12k distinct states, 9-25 s each; thorough adds
 # regular+hold and noaddr+holdna with 3 circuits and all four amounts: 2.9M / 62k and 3.3M / 77k, 3.5-4.5 min each.
 # amp+regular with 3 circuits does not close within the budget (> 9M generated): bounded to 5 events there)
 FULL = "{3, 2, 4, 5}"
 HALF = "{2, 4}"
 MC_QUICK = [("regular", "hold", 3, HALF, 0), ("regular", "hold", 2, FULL, 0), ("zeroamt", "keysend", 2, FULL, 0),
-            ("noaddr", "holdna", 3, HALF, 0), ("amp", "regular", 2, HALF, 0)]
-MC_THOROUGH = MC_QUICK + [("amp", "regular", 2, FULL, 0), ("regular", "hold", 3, FULL, 0), ("noaddr", "holdna", 3, FULL, 0), ("hold", "hold", 3, HALF, 0),
+            ("noaddr", "holdna", 2, FULL, 0), ("amp", "regular", 2, HALF, 0)]
+MC_THOROUGH = MC_QUICK + [("noaddr", "holdna", 3, HALF, 0), ("amp", "regular", 2, FULL, 0), ("regular", "hold", 3, FULL, 0), ("noaddr", "holdna", 3, FULL, 0), ("hold", "hold", 3, HALF, 0),
                           ("regular", "regular", 3, HALF, 0), ("keysend", "holdna", 3, HALF, 0),
                           ("amp", "amp", 2, FULL, 0), ("keysend", "amp", 2, FULL, 0), ("holdna", "amp", 2, FULL, 0),
                           ("amp", "regular", 3, HALF, 5)]
